@@ -461,6 +461,10 @@ def run_case(prop, name, h, timeout_ms=30000, max_paths=400, allow_exceptions=()
     def wrapped():
         m = Maker('sym')
         symx.ctx().maker = m
+        from . import kernels as _kern
+        # validators call np.isfinite / np.isscalar on the candidate value: numpy has no object
+        # loop for isfinite, so the attributes module sees a facade (symbols denote finite reals)
+        m.shim('regions.core.attributes', 'np', _kern.NPFacade())
         try:
             return h(m)
         finally:
@@ -480,6 +484,8 @@ def run_case(prop, name, h, timeout_ms=30000, max_paths=400, allow_exceptions=()
     seen_keys = set()
     ob_index = [0]
     for p in paths:
+        if res['violations']:
+            break          # one replayed violation decides the case
         m = p.ctx.maker
         for n in m.notes:
             if n not in res['notes']:
@@ -514,7 +520,7 @@ def run_case(prop, name, h, timeout_ms=30000, max_paths=400, allow_exceptions=()
         if r == 'sat':
             res['vacuity'] += 1
         for (obname, plen, term, key) in m.obligations:
-            if len(res['violations']) >= 2:
+            if len(res['violations']) >= 1:
                 break
             ob_index[0] += 1
             if shard is not None and ob_index[0] % shard[1] != shard[0]:
